@@ -194,7 +194,8 @@ def generate(ctx, tier):
         runs += [("NanoSyntax_comb", True), ("NanoSyntax_d3", False)]
     recs, states, trans = [], 0, 0
     for cfg, emits in runs:
-        r = tlc(ctx, "NanoSyntax", cfg, timeout=3000, xss="512m", xmx="24g" if cfg.endswith("d3") else "12g")
+        r = tlc(ctx, "NanoSyntax", cfg, timeout=3000, xss="512m", xmx="24g" if cfg.endswith("d3") else "12g",
+                extra=("-maxSetSize", "100000000") if cfg.endswith("d3") else ())
         if r.violated:
             # the specified notation itself is ambiguous on a printed form: our printers/spec are wrong
             raise InfraError("NanoSyntax/%s: %s violated -- the notation model is inconsistent:\n%s" % (
